@@ -35,7 +35,8 @@ def cases(tier, seed):
             out.append({"what": "round", "shape": shape, "frame": fr})
     for hexa in range(6):
         for view in range(len(VIEWS)):
-            out.append({"what": "reorient", "hex": hexa, "view": view})
+            for place in range(len(PLACES)):
+                out.append({"what": "reorient", "hex": hexa, "view": view, "place": place})
     return out
 
 
@@ -180,6 +181,9 @@ def hexahedra():
     return out
 
 
+# where the block sits (viewpoints are given relative to the block): near the origin and far from it
+PLACES = [(0.4, -0.2, 0.1), (20.0, -5.0, 3.0), (-7.0, 30.0, -12.0)]
+
 VIEWS = [
     ((0.3, -9.0, 0.6), (0.4, 0.2, 11.0)),
     ((12.0, 1.0, 2.0), (0.0, -10.0, 3.0)),
@@ -193,7 +197,7 @@ VIEWS = [
 def run_reorient(case):
     import classy_blocks as cb
 
-    pts = hexahedra()[case["hex"]] + np.array([0.4, -0.2, 0.1])
+    pts = hexahedra()[case["hex"]] + np.array(PLACES[case.get("place", 0)])
     centre = pts.mean(axis=0)
     obs, ceil = VIEWS[case["view"]]
     obs, ceil = np.array(obs) + centre, np.array(ceil) + centre
